@@ -6,13 +6,16 @@ reg("C04",
     "and every entry point (optimize, optimize_ir, fold_constants, rewrite; ModelProto and ir.Model; sampled option tuples) the harness "
     "observes: no exception (keyed by exception type and raising site), the result passes onnx.checker, the Coq checkers wf_graphb (unique "
     "definitions across nested graphs, definition before use with scoping, outputs produced) and imports_ok hold for the result whenever "
-    "they hold for the original, graph inputs / outputs keep names, order and declared types, called functions are still present, every "
+    "they hold for the original - imports_ok for the model AND for every model-local function with the function's own opset imports, recursively through If / Loop bodies -, "
+    "a dedicated family applies rewrite / RewriteRuleSet.apply_to_model / RewritePass (functions not inlined) with rules whose replacement introduces a domain the container does not import "
+    "(MatMul -> com.microsoft::FusedMatMul, Abs -> custom domain) on matches in the main graph, in function bodies and in their If / Loop bodies nested up to three times, checked with imports_ok in Coq, "
+    "onnx.checker, the signature and onnxruntime; graph inputs / outputs keep names, order and declared types, called functions are still present, every "
     "initializer-input keeps its default and original and optimized model agree for override values. Machine-checked theorems (Coq) about "
     "the model of the constant folder shared with C03: the declared inputs and outputs survive the traversal and the output replacement; "
     "the generic folding path keeps every node that consumes a graph input; with the graph-input guard in _get_numpy_value no partial "
     "evaluator can read the default of an initializer-input and the soundness theorem of the pass holds for every binding of the graph "
     "inputs (every override value); without the guard the faithful model inlines an If on the default of an overridable condition "
-    "(refutation witness, replayed on the real code); the same pair of statements for _clear_unused_initializers. The models of onnx_ir's dead-node removal and common-subexpression elimination (shared with C03) keep the graph's inputs and outputs and never drop an initializer that is a graph input or output (theorems); a lost output type is attributed to the pass of the real pipeline that drops it. Which of the two worlds "
+    "(refutation witness, replayed on the real code); the same pair of statements for _clear_unused_initializers. The models of onnx_ir's dead-node removal and common-subexpression elimination (shared with C03) keep the graph's inputs and outputs and never drop an initializer that is a graph input or output (theorems); a lost output type is attributed to the pass of the real pipeline that drops it; theorems over the models of RemoveUnusedFunctionsPass / RemoveUnusedOpsetsPass / InlinePass (shared with C03, compared with the real passes in Coq on every run): a function still called from the graph or from a kept function is found in the table as before, imports_ok survives the pruning of imports, the inlined graph calls no function of the table. Which of the two worlds "
     "the current source is in is read by the translator on every run.",
     "Coq kernel; totality and validity are observed on generated models, not proved; wf_graphb of the result is evaluated per run "
     "(translation validation), not derived from wf_graphb of the input; hand-written model tied by translator + decision-trace correspondence; "
